@@ -26,7 +26,8 @@ def drive(rng, tier):
     use_cache = rng.random() < 0.6
     static = rng.random() < 0.2
     long_pool = HX.make_long_pool(rng) if rng.random() < 0.15 else None
-    w = WX.Walker(prune, use_cache)
+    via_from = rng.random() < 0.4
+    w = WX.Walker(prune, use_cache, via_from)
     tiny = rng.random() < 0.3
     writes, m = HX.gen_writes(rng, rng.randint(4, 12 if tier == "quick" else 20), long_pool, tiny=tiny)
     collapse = None
@@ -45,6 +46,8 @@ def drive(rng, tier):
             HX.apply_model(m, x)
         collapse = ("del", Pp + b"\x55", "meth")
         static = False
+        # the new extension spans unexplored prefixes: reaching them from the root NODE (traverse_from) ends inside it
+        via_from = w.root_via_from = rng.random() < 0.7
     shrink = None
     directed = None
     if collapse is None and rng.random() < 0.25:
@@ -143,7 +146,7 @@ def drive(rng, tier):
         if bad is None and stats["mut"] == 0:
             if sorted(met) != sorted(ever) or len(w.met) != len(met):
                 bad = "on an unchanging trie the pairs met are not exactly the contents (or one was met twice)"
-    case = {"prune": prune, "use_cache": use_cache, "ops": ops}
+    case = {"prune": prune, "use_cache": use_cache, "ops": ops, "via_from": via_from}
     return case, outs, bad, stats, len(stable)
 
 
@@ -161,6 +164,7 @@ def check(tier, seed):
         R.count("partial_traversals", stats["partial"])
         R.count("stale_cache_retries", stats["stale"])
         R.count(f"cache_{int(case['use_cache'])}_prune_{int(case['prune'])}")
+        R.count(f"root_descent_via_traverse_from_{int(case['via_from'])}")
         if bad:
             R.spec_violations.append((bad, case))
         if stats["steps"] >= 8 and stats["mut"] >= 2 and (stats["partial"] or stats["stale"]) and nstable >= 3:
@@ -199,7 +203,7 @@ def replay(payload):
             ops.append(("trie", HX.tuplify(o[1])))
         else:
             ops.append(tuple(o))
-    w = WX.Walker(case["prune"], case["use_cache"])
+    w = WX.Walker(case["prune"], case["use_cache"], case.get("via_from", False))
     m, stable, ever, walking = {}, None, set(), False
     for op in ops:
         if op[0] == "step" and not walking:
